@@ -74,6 +74,51 @@ def gen_cases(ctx):
         if flavour != "clean" or rng.random() < 0.6:
             prefix = [a for a in prefix if a != TICK or rng.random() < 0.3]
         cases.append(mk_case(cfg, script, spont, prefix=prefix, kind="random-" + flavour, meta=meta))
+    # virtual devices: interleaved send_command / send_message(no filter) / send_message(filter) with
+    # handler answers of matching and non matching kinds
+    for i in range(400 if ctx.thorough else 70):
+        uid = U.Uid()
+        cfg = {"conn": rng.random() < 0.85, "virt": True, "tmo": rng.choice([1, 2, 3])}
+        script = []
+        for _ in range(rng.choice([2, 3, 3, 4, 5])):
+            k = rng.choice(["cmd", "cmd", "send-none", "send-none", "send-filter"])
+            fc = rng.choice(U.FILTER_CLASSES[:3])
+            other = lambda: [rng.choice([c for c in U.FILTER_CLASSES[:3] + [0, 7, 12] if c != fc]), uid.next(), False]
+            def fix(f):
+                return [f[0], f[1], f[0] == 0]
+            if k == "cmd":
+                ms = [fix(other()) for _ in range(rng.choice([0, 1, 2]))] + [[fc, uid.next(), False]] + [fix(other()) for _ in range(rng.choice([0, 1]))]
+                script.append(["cmd", fc, [ms]])
+            elif k == "send-none":
+                ms = [fix([rng.choice(U.FILTER_CLASSES[:3] + [0, 7]), uid.next(), False]) for _ in range(rng.choice([1, 1, 2]))]
+                script.append(["send", None, [ms]])
+            else:
+                ms = [fix(other()) for _ in range(rng.choice([0, 1, 2]))]
+                script.append(["send", fc, [ms] if ms else []])
+        prefix = U.gen_prefix(rng, rng.choice([0, 10, 30, 60]), virt=True, conn=cfg["conn"])
+        cases.append(mk_case(cfg, script, [], prefix=prefix, kind="virtual-sequence", meta=[]))
+    # native devices: the same operations (correspondence; the answers arrive asynchronously)
+    for i in range(200 if ctx.thorough else 30):
+        uid = U.Uid()
+        cfg = {"conn": rng.random() < 0.7, "virt": False, "tmo": rng.choice([1, 2, 3])}
+        script = []
+        for _ in range(rng.choice([2, 3, 4])):
+            fc = rng.choice(U.FILTER_CLASSES[:3])
+            if rng.random() < 0.5:
+                script.append(["cmd", fc, U.gen_reaction(rng, uid, fc, rng.choice(["ok", "ok", "silent"]))])
+            else:
+                script.append(["send", rng.choice([None, None, fc]), [U.gen_chunk(rng, uid, rng.choice([1, 2]))]])
+        prefix = U.gen_prefix(rng, rng.choice([0, 20, 60]), virt=False, conn=cfg["conn"])
+        cases.append(mk_case(cfg, script, [], prefix=prefix, kind="native-send", meta=[]))
+    # an unrelated message arrives while the command waits, the clock moves, the answer comes later but
+    # well inside the timeout: the command must return it (and must not time out early)
+    for tmo in (2, 3):
+        for nt in range(1, tmo):
+            for spin in (30, 60):
+                cfg = {"conn": False, "virt": False, "tmo": tmo}
+                script = [["cmd", 3, [[[3, 2, False]]]]]
+                prefix = [A] * 5 + [EMIT] + [R] * 3 + [TICK] * nt + [A] * spin + [W] * 4 + [R] * 4
+                cases.append(mk_case(cfg, script, [[[0, 1, True]]], prefix=prefix, kind="late-answer", meta=["ok"]))
     # the queue-not-empty timeout scenario in every configuration (the defect repaired by `fix:`)
     for conn in (True, False):
         for virt in (False, True):
@@ -128,6 +173,22 @@ def corpus_cases():
 # oracle: the property evaluated on what the real code did
 # ---------------------------------------------------------------------------------------
 
+def virt_sequential(script):
+    """Only send_command / send_message; each command's reaction holds exactly one message of its
+    filter class; a message sent WITH a filter is not answered by a message of that class (it would
+    legitimately stay queued for a later wait)."""
+    for op in script:
+        if op[0] == "cmd":
+            if len([f for f in U.msgs_of(op[2]) if f[0] == op[1]]) != 1:
+                return False
+        elif op[0] == "send":
+            if op[1] is not None and [f for f in U.msgs_of(op[2]) if f[0] == op[1]]:
+                return False
+        else:
+            return False
+    return True
+
+
 def timed_before(returned, i):
     return any(r[0] != "ok" for r in returned[:i])
 
@@ -149,7 +210,7 @@ def oracle(case, res):
     # filters pairwise distinct, at most one message per filter class in the whole history, and it
     # sits in the reaction of the command that waits for it: an answer cannot be mistaken even
     # after a timeout
-    allm = [f for op in cmds for f in U.msgs_of(op[2])] + U.msgs_of(case.get("spont", []))
+    allm = [f for op in script if op[0] in ("cmd", "send") for f in U.msgs_of(op[2])] + U.msgs_of(case.get("spont", []))
     distinct = (len({op[1] for op in cmds}) == len(cmds)
                 and all(sum(1 for f in allm if f[0] == op[1]) == sum(1 for f in U.msgs_of(op[2]) if f[0] == op[1]) <= 1 for op in cmds))
     timed_out = False
@@ -181,6 +242,9 @@ def oracle(case, res):
             continue
         if k < len(obs["returned"]) and j < len(info["spans"]) and info["spans"][j][1] is not None:
             dur = info["spans"][j][1] - info["spans"][j][0]
+            if obs["returned"][k][0] == "timeout" and dur <= tmo:
+                out.append(("command %d raised the timeout error after only %d ticks, before its timeout (%d) had elapsed" % (k, dur, tmo),
+                            "> %d ticks, or its response" % tmo, dur))
             if obs["returned"][k][0] == "timeout" and dur > 2 * tmo + 2 + nticks_prefix:
                 out.append(("command %d timed out after %d ticks (timeout %d)" % (k, dur, tmo), "<= %d" % (2 * tmo + 2 + nticks_prefix), dur))
             if obs["returned"][k][0] == "ok" and dur > 2 * tmo + 2 + nticks_prefix:
@@ -214,6 +278,26 @@ def oracle(case, res):
                     out.append(("notifications reached process_message duplicated / lost / out of order", emitted_n, delivered_n))
                 if quiet and clean and delivered_n != emitted_n:
                     out.append(("at quiescence some notification never reached process_message", emitted_n, delivered_n))
+    # virtual device, connector attached, no concurrent producer: the handler answers synchronously,
+    # so whatever the schedule: every command returns its own response, and everything else the
+    # handlers emitted (incl. the answers to messages sent WITHOUT a filter, whatever they look like)
+    # reaches the connector, in order
+    if cfg["virt"] and cfg["conn"] and not case.get("spont") and virt_sequential(script) and obs["adone"] and not res["capped"]:
+        exp_ret, exp_deliv = [], []
+        for op in script:
+            ms = [list(f) for f in U.msgs_of(op[2])]
+            if op[0] == "cmd":
+                own = [f for f in ms if f[0] == op[1]][0]
+                exp_ret.append(["ok"] + own)
+                exp_deliv += [f for f in ms if f is not own]
+            else:
+                exp_deliv += ms
+        if obs["returned"] != exp_ret:
+            out.append(("virtual device: a command did not return its own response", exp_ret, obs["returned"]))
+        quiet_v = not obs["events"] and info["pending"].get("C", "").endswith(".get")
+        if obs["delivered"] != exp_deliv[:len(obs["delivered"])] or (quiet_v and obs["delivered"] != exp_deliv):
+            out.append(("virtual device: what the handlers emitted (other than the commands' own responses) did not reach the connector exactly once in order",
+                        exp_deliv, obs["delivered"]))
     # a silent command must end with the timeout error
     if distinct:
         for i, r in enumerate(obs["returned"]):
